@@ -14,11 +14,21 @@ MANIFEST = {
             "unassigned bytes retire the thread. The subset/equality of executed offsets against the EVM control-flow graph is "
             "evaluated inside Coq by the reference EVM (both JUMPI outcomes) on the implementation's visit counters; the model is tied "
             "to the code by the VM correspondence run and the translated opcode bodies (T1/T9).",
-    "note": "The inclusion 'executed offsets are reachable in the EVM CFG' is a theorem along each path for threads whose steps "
-            "satisfy C07's guards (C08_executed_offsets_reachable, a corollary of C07's path simulation: every offset with a positive "
-            "visit counter that is not push data is a program counter of the reference EVM's run along the thread's ghost path); outside "
-            "those guards and for the equality half it is decided by the Coq-evaluated oracle on loop-free programs (partial). A JUMPDEST "
-            "reached by JUMP is stepped over, not executed, by design of Jump::execute: it counts as covered.",
+    "note": "Both inclusions are theorems inside C07's guards. (1) 'executed offsets are reachable in the EVM CFG' along each path "
+            "for threads whose steps satisfy the guards (C08_executed_offsets_reachable, a corollary of C07's path simulation). (2) The "
+            "CONVERSE, 'no reachable code is skipped' (C08_reachable_state_executed / C08_reachable_offsets_executed / "
+            "C08_code_51_impossible, proofs/VmExplore.v): if the model run ends with an empty queue and EVERY iteration satisfies "
+            "step_guard2 (C07's guards, the thread not retired by the iteration/gas limit, and fork_guard: at a JUMPI the fork is not "
+            "suppressed by the iteration or fork limit, and a target that does not validate cannot be taken by the reference EVM either; "
+            "or the iteration is a JUMP neither machine can take, dead_jump_guard), "
+            "then every state the reference EVM reaches with both JUMPI outcomes possible is shadowed by a thread -- its offset has a "
+            "positive visit counter in a retired state and is not push data, or it is the JUMPDEST a JUMP lands on (stepped over by design "
+            "of Jump::execute); stated also as the very predicate of code 51 (reach of SimCases.explore is in visited + SimCases.landings; "
+            "explore is proved sound, landings complete). The hypotheses are evaluated inside Coq on every searched program (coverage: "
+            "programs_inside_converse_theorem); outside them both halves are decided by the Coq-evaluated oracle on loop-free programs. "
+            "C08_converse_refuted: outside the hypotheses the converse is false when a jump target is a constant of the path that does not "
+            "constant-fold -- sstore(0,L); jumpi(sload(0),1): 600c600055600160005457005b600100 never executes offsets 12.. (the target is "
+            "SLoad{0,12}; the real VM behaves the same).",
     "technique": "Coq proof of the jump-validation, fork and halting lemmas on a model with translated opcode bodies; reference-EVM "
                  "reachability evaluated inside Coq on the implementation's visit counters; differential correspondence",
 }
@@ -29,7 +39,7 @@ CODES = {50: "an executed offset is not reachable in the EVM control-flow graph"
 
 def check(ctx):
     vlib.translate(ctx)
-    vlib.prove(ctx, "props/C08.v", ["SimCases.vo"])
+    vlib.prove(ctx, "props/C08.v", ["SimCases.vo", "SimGuardCases.vo"])
     hb = vlib.harness_bin(ctx)
     rng = ctx.rng
     bw = gen.boundary_words()
@@ -61,6 +71,11 @@ def check(ctx):
         per = min(150, max(1, len(terms) // 32 + 1))
         bad = vlib.run_cases(ctx, "visited-vs-cfg", header, terms, per_shard=per, fn="check_c08")
         explored = vlib.run_cases(ctx, "cfg-explored", header, terms, per_shard=per, fn="c08_explored")
+        # which programs lie inside the hypotheses of the converse theorem (C08_reachable_offsets_executed): there code 51 is
+        # excluded by proof (given the correspondence), elsewhere by the search
+        header_g = ("From Coq Require Import String.\nFrom SLX Require Import Base gen.ValueSig SymVal VM VmCases SimGuardCases.\n"
+                    "Open Scope string_scope. Open Scope N_scope.\n")
+        inside = vlib.run_cases(ctx, "inside-converse-theorem", header_g, terms, per_shard=per, fn="c08_converse_stats")
         disagreements = []
         for idx, code in bad:
             c = keys[idx]
@@ -73,6 +88,8 @@ def check(ctx):
         ctx.oblige("correspondence:vm", "correspondence", not disagreements, "\n".join(disagreements[:10]))
         ctx.coverage.update({"evaluations": len(keys), "distinct_nontrivial": len(explored),
                              "offsets_in_reference_cfgs": sum(c - 1 for _, c in explored),
+                             "programs_inside_converse_theorem": len(inside),
+                             "offsets_in_reference_cfgs_inside_converse_theorem": sum(c - 1 for _, c in inside),
                              "traces_validated_against_impl": len(terms),
                              "input_classes": dict(collections.Counter(progs.values()))})
     return vlib.finish(ctx, rule="distinct loop-free programs with constant jump targets of every kind; non-trivial = the reference "
